@@ -168,9 +168,10 @@ def servedITok (np : String) : Iter.ServedI → List String
   | .panic _ => [np, "P"]
   | .outOfFuel => [np, "FUEL"]
 
-/-- recursive `serve` and iterative `serveIter` give the same handler / no handler -/
-def agree : Served → Iter.ServedI → Bool
-  | .handler f, .handler g => f == g
+/-- recursive `serve` and iterative `serveIter` give the same handler (values unescaped when asked) / no handler -/
+def agree (u : Bool) : Served → Iter.ServedI → Bool
+  | .handler f, .handler g =>
+    g == { f with params := f.params.map fun kv => (kv.1, Iter.unescapeVal u kv.2) }
   | .noRoute, .redirect _ => true
   | .noRoute, .notAllowed => true
   | .noRoute, .notFound => true
@@ -245,8 +246,8 @@ def handleRt (opName : String) (mask : Nat) (n : String) (rest impl : List Strin
             | .x => ["=", "X"]
             | _ => servedITok np s)
           let rs := canonical (mkRoutes 0 regs)
-          -- the recursive find (subject of the theorems) agrees with the iterative one (unescape off)
-          let agreeAll := o.unescape || served.all (fun (_, s, r) => agree r s)
+          -- the recursive find (subject of the theorems) agrees with the iterative one, for every option mask
+          let agreeAll := served.all (fun (_, s, r) => agree o.unescape r s)
           let specOk := specAllX o rs lookups results
           let spec := cleanOk && agreeAll && specOk
           let hits := (served.filter (fun (_, s, _) => match s with | .handler _ => true | _ => false)).length
@@ -259,12 +260,8 @@ def handleRt (opName : String) (mask : Nat) (n : String) (rest impl : List Strin
             | .redirect _ => true | _ => false) &&
             (lookups.zip results).any (fun ((meth, _), (np, ir)) => match ir with
               | .n st => (st == "301" || st == "307") && (Spec.Route.select rs meth (toggleSlash np)).isNone | _ => false)
-          -- known finding: with UseRawPath+UnescapePathValues backtracking restores searchIndex by the
-          -- length of the UNESCAPED value; the model reproduces it, the spec does not accept it
-          let modelSame := outToks == resToks
           pure { out := absTok ++ "OK" :: outToks, spec := spec,
                  specNote := "selected route = best matching pattern (literal > param > catch-all at first difference), params = matched substrings (unescaped when asked), fullPath = pattern, none matches => no handler, 301/307 only with RedirectTrailingSlash and path != /, 405 iff another method matches, else 404; iterative = recursive find",
-                 cls := if !spec && cleanOk && agreeAll && o.unescape && modelSame then "F-unescape-backtrack" else "",
                  tag := base ++ ":ok:h" ++ sizeClass hits ++ "m" ++ sizeClass (m - hits) ++ "p" ++ sizeClass amb
                           ++ (if red then "r" else "") ++ (if na then "a" else "") ++ (if dead then "d" else "") }
       | _ =>
